@@ -10,6 +10,7 @@ import (
 	"os"
 	"reflect"
 	"sort"
+	"strconv"
 	"strings"
 
 	topology "github.com/SKAARHOJ/rawpanel-lib/topology"
@@ -55,7 +56,8 @@ func toSx(v reflect.Value) Sx {
 			return Sym("nil")
 		}
 		keys := v.MapKeys()
-		sort.Slice(keys, func(i, j int) bool { return keyNum(keys[i]) < keyNum(keys[j]) })
+		// key-STRING order, as encoding/json emits map entries (the model's canonical order)
+		sort.Slice(keys, func(i, j int) bool { return keyStr(keys[i]) < keyStr(keys[j]) })
 		xs := []Sx{}
 		for _, k := range keys {
 			xs = append(xs, L(toSx(k), toSx(v.MapIndex(k))))
@@ -77,14 +79,14 @@ func toSx(v reflect.Value) Sx {
 	return Sym("o")
 }
 
-func keyNum(k reflect.Value) float64 {
+func keyStr(k reflect.Value) string {
 	switch k.Kind() {
 	case reflect.Int, reflect.Int8, reflect.Int16, reflect.Int32, reflect.Int64:
-		return float64(k.Int())
+		return strconv.FormatInt(k.Int(), 10)
 	case reflect.Uint, reflect.Uint8, reflect.Uint16, reflect.Uint32, reflect.Uint64:
-		return float64(k.Uint())
+		return strconv.FormatUint(k.Uint(), 10)
 	}
-	return 0
+	return k.String()
 }
 
 func fingerprint(x interface{}) string {
